@@ -2,6 +2,8 @@ package main
 
 import (
 	"fmt"
+	"os"
+	"path/filepath"
 	"reflect"
 	"strings"
 
@@ -9,6 +11,7 @@ import (
 	"github.com/elastic/go-libaudit/v2/rule/flags"
 
 	"verif/engine/enumx"
+	"verif/engine/ev"
 )
 
 // group is one flag group of a rule line: a flag with its argument, a bare
@@ -326,6 +329,45 @@ func describe(r rule.Rule) string {
 	return fmt.Sprintf("%T", r)
 }
 
+// c14Paths: -w / -F path= / -F dir= arguments that EXIST on this machine, go through
+// symlinks, have trailing or doubled slashes, dots - the parsed rule must hold the text that
+// was written, whatever is on disk.
+func c14Paths(c *enumx.Ctx) {
+	dir := filepath.Join(ev.Root(), ".work", fmt.Sprintf("c14-%d", os.Getpid()))
+	_ = os.MkdirAll(filepath.Join(dir, "real", "sub"), 0o755)
+	defer os.RemoveAll(dir)
+	_ = os.WriteFile(filepath.Join(dir, "real", "file"), []byte("x"), 0o644)
+	_ = os.Symlink(filepath.Join(dir, "real", "file"), filepath.Join(dir, "flink"))
+	_ = os.Symlink(filepath.Join(dir, "real"), filepath.Join(dir, "dlink"))
+	_ = os.Symlink("nowhere", filepath.Join(dir, "dangling"))
+	paths := []string{
+		"/bin/sh", "/bin", "/lib", "/sbin/init", "/etc/passwd", "/etc/", "/etc//passwd", "/etc/./passwd", "/etc/../etc/passwd", "/proc/self", "/proc/self/exe", "/dev/stdin", "/var/run", "/tmp", "/", "//", "/usr/bin/../bin/env",
+		dir + "/flink", dir + "/dlink", dir + "/dlink/file", dir + "/dlink/sub/", dir + "/dangling", dir + "/real/file", dir + "/real/", dir + "/nope", "relative/path", ".", "~", "/etc/passwd ", " /etc/passwd",
+	}
+	for _, p := range paths {
+		for _, form := range []string{"w", "path", "dir"} {
+			for _, extra := range [][]group{nil, {{"-k", "k1", false}}, {{"-p", "wa", false}}} {
+				if !c.Mine() {
+					continue
+				}
+				var gs []group
+				switch form {
+				case "w":
+					gs = []group{{"-w", p, false}}
+				case "path":
+					gs = []group{{"-a", "always,exit", false}, {"-F", "path=" + p, false}}
+				default:
+					gs = []group{{"-a", "always,exit", false}, {"-F", "dir=" + p, false}}
+				}
+				if form != "w" && len(extra) > 0 && extra[0].Flag == "-p" {
+					continue
+				}
+				checkLine(c, append(gs, extra...))
+			}
+		}
+	}
+}
+
 func c14Lines(c *enumx.Ctx) {
 	maxLen := 3
 	if c.Tier == "thorough" {
@@ -347,4 +389,7 @@ func c14Lines(c *enumx.Ctx) {
 	c.Sample("-a always,exit -F 'path=/tmp/my file' -k k1  => filter (path = \"/tmp/my file\") or rejection")
 }
 
-func init() { gens["c14-lines"] = c14Lines }
+func init() {
+	gens["c14-lines"] = c14Lines
+	gens["c14-paths"] = c14Paths
+}
